@@ -1,9 +1,219 @@
 import Driver.Util
+import Lattigo.Model.SamplerSession
 
+/-
+  C17 driver.  Ops (all self-contained):
+
+    sess N=<n> Q=<chain> S=<kind;kind;…> stream=<desc> regs=<mat/mat/…> calls=<c;c;…>
+        kind:  u | tp:<P float64 bits>:<mont 0|1> | th:<H>:<mont> | g:<sigma bits>:<bound bits>:<mont>
+        call:  <sampler>.<level>.<r|n|a>.<register>       (Read / ReadNew / ReadAndAdd)
+        out:   <matrix>@<bytes consumed so far> per call, joined by `|`, then `|exhausted` / `|panic`
+               if the run stopped; `inconclusive` if a Gaussian draw left the ziggurat fast path
+    qp N=<n> Q=<chain> P=<chain> stream=<desc> fill=<v> calls=<lq.lp.r|n;…>   (level `-` = −1 / nil)
+        out:   <matQ>/<matP>@<consumed> per call
+    matrix <P bits>                 computeMatrixTernary: `<invDensity bits> <row0>;<row1>`
+    tables kn|wn|fn|rn              the ziggurat tables as integers / bit patterns
+    fmul|fadd|fsub a b, fofnat n, ftrunc a     soft-float vs hardware (bit patterns)
+    randu v mask stream=<desc>      ring.RandUniform: `<value>@<consumed>`
+    randint max stream=<desc>       bignum.RandInt:  `<value>@<consumed>`
+    mask q                          SubRing.Mask
+  stream descriptor: segments joined by `+`:  x<hex> | r<2 hex digits>*<count> | s<seed>*<count>
+  (SplitMix64 bytes, little endian).
+-/
 namespace Driver.C17
-open Driver
+open Driver Lattigo Lattigo.Sampler
 
-/-- stub: replaced by the property's real handler -/
-def handle (_toks : List String) : String := badOp
+/-! stream descriptors -/
+
+def smBytes (seed count : Nat) : List Nat := Id.run do
+  let mut s := seed
+  let mut out : Array Nat := #[]
+  let words := (count + 7) / 8
+  for _ in [0:words] do
+    s := u64add s 0x9E3779B97F4A7C15
+    let z := s
+    let z := u64mul (u64xor z (z >>> 30)) 0xBF58476D1CE4E5B9
+    let z := u64mul (u64xor z (z >>> 27)) 0x94D049BB133111EB
+    let z := u64xor z (z >>> 31)
+    for k in [0:8] do
+      out := out.push ((z >>> (8 * k)) % 256)
+  return (out.toList.take count)
+
+def parseSeg? (t : String) : Option (List Nat) :=
+  match t.toList with
+  | 'x' :: rest => parseHex? (String.ofList rest)
+  | 'r' :: rest =>
+    match (String.ofList rest).splitOn "*" with
+    | [h, c] => do
+      let b ← parseHex? h
+      let n ← c.toNat?
+      match b with
+      | [v] => some (List.replicate n v)
+      | _ => none
+    | _ => none
+  | 's' :: rest =>
+    match (String.ofList rest).splitOn "*" with
+    | [sd, c] => do
+      let s ← sd.toNat?
+      let n ← c.toNat?
+      some (smBytes s n)
+    | _ => none
+  | _ => none
+
+def parseStream? (t : String) : Option (List Nat) :=
+  if t == "-" then some [] else do
+    let segs ← (t.splitOn "+").mapM parseSeg?
+    some segs.flatten
+
+/-! hardware-float oracle for the `math.Log` / `math.Exp` branches (lines that use it are
+    reported `inconclusive`, the values only steer the byte consumption) -/
+
+def toF (scaled : Nat) : Float := Float.ofBits (SF.toBits64 scaled).toUInt64
+def ofF (x : Float) : Nat := SF.ofBits64 x.toBits.toNat
+
+def hwOracle : Slow where
+  base u1 u2 :=
+    let den := Float.ofNat 0x1fffffffffffff
+    let rn := Float.ofBits Zig.rnBits.toUInt64
+    let invRn := Float.ofBits Zig.invRnBits.toUInt64
+    let x := (-(Float.log (Float.ofNat u1 / den))) * invRn
+    let y := -(Float.log (Float.ofNat u2 / den))
+    if y + y >= x * x then some (ofF (x + rn)) else none
+  wedge i x u :=
+    let den := Float.ofNat 0x1fffffffffffff
+    let fi := Float32.ofBits (Zig.fn.getD i 0).toUInt32
+    let fi1 := Float32.ofBits (Zig.fn.getD (i - 1) 0).toUInt32
+    let xf := toF x
+    let r32 := (Float.ofNat u / den).toFloat32
+    fi + r32 * (fi1 - fi) < (Float.exp (-0.5 * xf * xf)).toFloat32
+
+/-! parsing -/
+
+def parseBool? (s : String) : Option Bool :=
+  if s == "1" then some true else if s == "0" then some false else none
+
+def parseKind? (t : String) : Option Kind :=
+  match t.splitOn ":" with
+  | ["u"] => some .uniform
+  | ["tp", p, m] => do some (.ternP (← p.toNat?) (← parseBool? m))
+  | ["th", h, m] => do some (.ternH (← h.toNat?) (← parseBool? m))
+  | ["g", s, b, m] => do some (.gauss (← s.toNat?) (← b.toNat?) (← parseBool? m))
+  | _ => none
+
+def parseCall? (t : String) : Option Call :=
+  match t.splitOn "." with
+  | [s, l, o, r] => do
+    let op ← match o with
+      | "r" => some Op.read | "n" => some Op.readNew | "a" => some Op.readAndAdd | _ => none
+    some { sampler := ← s.toNat?, level := ← l.toNat?, op := op, reg := ← r.toNat? }
+  | _ => none
+
+def parseList? {α} (f : String → Option α) (sep : String) (t : String) : Option (List α) :=
+  if t == "-" then some [] else (t.splitOn sep).mapM f
+
+def fuelFor (stream : List Nat) : Nat := 8 * stream.length + 4096
+
+def handleSess (toks : List String) : Option String := do
+  let N ← (← kv? toks "N").toNat?
+  let chain ← parseVec? (← kv? toks "Q")
+  let kinds ← parseList? parseKind? ";" (← kv? toks "S")
+  let stream ← parseStream? (← kv? toks "stream")
+  let regs ← parseList? parseMat? "/" (← kv? toks "regs")
+  let calls ← parseList? parseCall? ";" (← kv? toks "calls")
+  let cfg : Cfg := { N := N, chain := chain, kinds := kinds, fuel := fuelFor stream, orc := hwOracle }
+  let total := stream.length
+  let (outs, fin, _) := run cfg (St.init cfg stream regs) calls
+  if outs.any (fun o => o.2.2) then some "inconclusive" else
+  let parts := outs.map fun (p, left, _) => showMat p ++ "@" ++ toString (total - left)
+  let parts := match fin with
+    | .done => parts
+    | .exhausted => parts ++ ["exhausted"]
+    | .panic => parts ++ ["panic"]
+  some ("|".intercalate parts)
+
+/-- ringqp call: levels (`none` = −1), op -/
+def parseQPCall? (t : String) : Option (Option Nat × Option Nat × Bool) :=
+  match t.splitOn "." with
+  | [lq, lp, o] => do
+    let l1 ← if lq == "-" then some none else (lq.toNat?).map some
+    let l2 ← if lp == "-" then some none else (lp.toNat?).map some
+    let isNew ← match o with | "n" => some true | "r" => some false | _ => none
+    some (l1, l2, isNew)
+  | _ => none
+
+def handleQP (toks : List String) : Option String := do
+  let N ← (← kv? toks "N").toNat?
+  let cQ ← parseVec? (← kv? toks "Q")
+  let cP ← parseVec? (← kv? toks "P")
+  let stream ← parseStream? (← kv? toks "stream")
+  let fill ← (← kv? toks "fill").toNat?
+  let calls ← parseList? parseQPCall? ";" (← kv? toks "calls")
+  let fuel := fuelFor stream
+  let total := stream.length
+  let rec go (calls : List (Option Nat × Option Nat × Bool)) (s : Bytes) (bs : QPBufs)
+      (acc : List String) : List String :=
+    match calls with
+    | [] => acc.reverse
+    | (lq, lp, isNew) :: rest =>
+      if (match lq with | some l => l ≥ cQ.length | none => false) ||
+         (match lp with | some l => l ≥ cP.length | none => false) then ("panic" :: acc).reverse else
+      let qsQ := lq.map fun l => cQ.take (l + 1)
+      let qsP := lp.map fun l => cP.take (l + 1)
+      let mk (c : List Nat) (l : Option Nat) : Poly :=
+        if isNew then (match l with | some l => zeroPoly (l + 1) N | none => [])
+        else List.replicate c.length (List.replicate N fill)
+      match qpRead fuel qsQ qsP (mk cQ lq) (mk cP lp) s bs with
+      | .ok (rQ, rP, s, bs) =>
+        go rest s bs ((showMat rQ ++ "/" ++ showMat rP ++ "@" ++ toString (total - s.length)) :: acc)
+      | .exhausted => ("exhausted" :: acc).reverse
+      | .panic => ("panic" :: acc).reverse
+  some ("|".intercalate (go calls stream { bQ := Buf.new, bP := Buf.new } []))
+
+def handle (toks : List String) : String :=
+  let r : Option String :=
+    match toks with
+    | "sess" :: rest => handleSess rest
+    | "qp" :: rest => handleQP rest
+    | ["matrix", p] => do
+      let pb ← p.toNat?
+      let inv := invDensity pb
+      let M := probaMatrix inv
+      some (toString (SF.toBits64 inv) ++ " " ++ showVec M.1 ++ ";" ++ showVec M.2)
+    | ["tables", "kn"] => some (showVec Zig.kn.toList)
+    | ["tables", "wn"] => some (showVec Zig.wn.toList)
+    | ["tables", "fn"] => some (showVec Zig.fn.toList)
+    | ["tables", "rn"] => some (showVec [Zig.rnBits, Zig.invRnBits])
+    | ["fmul", a, b] => do some (toString (SF.toBits64 (SF.mul (SF.ofBits64 (← a.toNat?)) (SF.ofBits64 (← b.toNat?)))))
+    | ["fadd", a, b] => do some (toString (SF.toBits64 (SF.add (SF.ofBits64 (← a.toNat?)) (SF.ofBits64 (← b.toNat?)))))
+    | ["fsub", a, b] => do some (toString (SF.toBits64 (SF.sub (SF.ofBits64 (← a.toNat?)) (SF.ofBits64 (← b.toNat?)))))
+    | ["fofnat", n] => do some (toString (SF.toBits64 (SF.ofNat (← n.toNat?))))
+    | ["fof32", n] => do some (toString (SF.toBits64 (SF.ofBits32 (← n.toNat?))))
+    | ["ftrunc", a] => do some (toString (SF.trunc (SF.ofBits64 (← a.toNat?))))
+    | ["randu", v, mask, st] => do
+      let v ← v.toNat?
+      let mask ← mask.toNat?
+      let stream ← parseStream? (← kv? [st] "stream")
+      -- `RandUniform`: `randInt64(prng, mask)` until `< v`: 8 bytes big endian straight from the PRNG
+      let rec go (fuel : Nat) (s : Bytes) : String :=
+        match fuel with
+        | 0 => "exhausted"
+        | fuel + 1 =>
+          match prngRead s 8 with
+          | .ok (b, s) =>
+            let w := u64and mask (beNat b)
+            if w < v then toString w ++ "@" ++ toString (stream.length - s.length) else go fuel s
+          | _ => "exhausted"
+      some (go (fuelFor stream) stream)
+    | ["randint", mx, st] => do
+      let mx ← mx.toNat?
+      let stream ← parseStream? (← kv? [st] "stream")
+      if mx = 0 then some "panic" else
+      match randInt (fuelFor stream) mx stream with
+      | .ok (v, s) => some (toString v ++ "@" ++ toString (stream.length - s.length))
+      | .exhausted => some "exhausted"
+      | .panic => some "panic"
+    | ["mask", q] => do some (toString (maskOf (← q.toNat?)))
+    | _ => none
+  r.getD badOp
 
 end Driver.C17
